@@ -5,6 +5,7 @@ mod props;
 mod report;
 mod scopes;
 mod subject;
+mod supervise;
 
 use report::Tier;
 
@@ -27,7 +28,7 @@ fn main() {
                 println!("{id}");
             }
         }
-        "check" => {
+        "check" | "check-inner" => {
             let id = args.get(2).cloned().unwrap_or_else(|| usage());
             let mut tier = Tier::Quick;
             let mut i = 3;
@@ -47,6 +48,10 @@ fn main() {
                 println!("MACHINERY-ERROR unknown property {id}");
                 std::process::exit(2)
             };
+            // C11 and C18 isolate every scenario themselves; the other checks run under a supervising parent
+            if args[1] == "check" && id != "C11" && id != "C18" && std::env::var("VP_NO_SUPERVISE").is_err() {
+                std::process::exit(supervise::supervise(&id, tier));
+            }
             std::process::exit(f(tier));
         }
         "replay" => {
